@@ -1,7 +1,8 @@
 use core::panic;
 use std::vec;
 
-use laythe_core::{object::Class, utils::IdEmitter, value::Value, ObjRef};
+use laythe_core::{managed::Trace, object::Class, utils::IdEmitter, value::Value, ObjRef};
+use std::io::Write;
 
 /// The cache for property access and setting
 #[derive(Clone, Debug)]
@@ -37,6 +38,32 @@ pub struct InlineCache {
   /// one for each location a method is
   /// invoke
   invoke: Vec<Option<InvokeCache>>,
+}
+
+/// The caches hold on to classes and methods by address, they are
+/// only valid as long as those objects are not collected
+impl Trace for InlineCache {
+  fn trace(&self) {
+    for cache in self.property.iter().flatten() {
+      cache.class.trace();
+    }
+
+    for cache in self.invoke.iter().flatten() {
+      cache.class.trace();
+      cache.method.trace();
+    }
+  }
+
+  fn trace_debug(&self, log: &mut dyn Write) {
+    for cache in self.property.iter().flatten() {
+      cache.class.trace_debug(log);
+    }
+
+    for cache in self.invoke.iter().flatten() {
+      cache.class.trace_debug(log);
+      cache.method.trace_debug(log);
+    }
+  }
 }
 
 impl InlineCache {
